@@ -2123,6 +2123,8 @@ def _b_len(I, args, kwargs, node):
         I.ctx.assume(card >= 0)
         I.ctx.assume((card == 0) == (st == z3.EmptySet(st.sort().domain())))
         return card
+    if isinstance(v, Obj) and (v.cls, 'len') in I.spec.field_sorts:
+        return I.spec.field_sorts[(v.cls, 'len')](I, v, node)
     raise Unsupported('len of %r' % (v,))
 
 
